@@ -21,7 +21,7 @@ def r15(ctx):
     from ..astx import inline_value_helpers
     # a value computed by a module-level helper made of if / return only (`dtype = _weights_dtype(edge_type, lo, hi)`) is read
     # as the if/elif chain it stands for
-    fn = inline_value_helpers(m, f.module, f.node)
+    fn = inline_value_helpers(m, f.module, f.node, skip=("get_dtype",))     # get_dtype is judged on its own (table, interval test)
     fl = f.file
     name = "min_weight_bipartite_matching"
     ctx.rule("R15a", "result construction: pairs are zip(row_ind, col_ind) of the solver's answer, each reported as "
@@ -248,7 +248,7 @@ def r15(ctx):
     if "int" in sel and len(sel["int"].value.args) == 2:
         lo_, hi_ = (dotted(a) for a in sel["int"].value.args)
         # min_edge / max_edge are the running minimum / maximum over the real edges
-        minmax_ok = pat.has(f"if {hi_} is None or {hi_} < E:\n    {hi_} = E", fn, stmts=True) and \
+        minmax_ok = bool(lo_ and hi_) and pat.has(f"if {hi_} is None or {hi_} < E:\n    {hi_} = E", fn, stmts=True) and \
             pat.has(f"if {lo_} is None or {lo_} > E:\n    {lo_} = E", fn, stmts=True)
     if minmax_ok:
         ctx.proved("R15c", fl, name, sel["int"], "dtype for int", "get_dtype(min_edge, max_edge)")
